@@ -12,6 +12,7 @@ Rewrites (one site at a time, applied to the source text):
   AUGEXP   `x += e` -> `x = x + e` for plain names
   PARENS   the test of an `if` / `while` wrapped in redundant parentheses
   ELSEIFY  `if c: ...; return` + REST -> `if c: ...; return else: REST`;  NESTIF `if a and b: X` -> nested ifs;  TEMP `return e` -> `result_ = e; return result_`
+  INLOG    a debug-log call inserted as first statement of a nested block
   MERGEIF  nested ifs without else merged with `and`;  SWAPINDEP adjacent constant stores to different fields of self exchanged
   FSTR     'a{}b'.format(x) -> f'a{x}b'
   GUARD    `if c: BODY` as last statement of a loop body / function -> `if not c: continue / return` followed by BODY
@@ -146,6 +147,21 @@ def twins_in(func_node, btext, offs):
                     r = ast.Return(value=ast.Name(id="result_", ctx=ast.Load()))
                     ns, ne = _rng(st, offs)
                     out.append(("TEMP", ns, ne, _indent(_u(ast.fix_missing_locations(a)) + "\n" + _u(r), st.col_offset), st.lineno, "temporary for `%s`" % _u(st.value)[:40]))
+    # INLOG: a debug-log call inserted as first statement of a nested block (loop body, if body, else body, try body)
+    for n in ast.walk(func_node):
+        if n is func_node or isinstance(n, (ast.FunctionDef, ast.AsyncFunctionDef, ast.ClassDef, ast.Lambda)):
+            continue
+        for fld in ("body", "orelse"):
+            lst = getattr(n, fld, None)
+            if not isinstance(lst, list) or not lst or not isinstance(lst[0], ast.stmt):
+                continue
+            if fld == "orelse" and isinstance(n, ast.If) and len(lst) == 1 and isinstance(lst[0], ast.If):
+                continue        # elif
+            first_ = lst[0]
+            a_s = offs[first_.lineno - 1] + first_.col_offset
+            if btext[a_s:a_s + 4] == b"elif":
+                continue
+            out.append(("INLOG", a_s, a_s, "self.debug_log('twin')\n" + " " * first_.col_offset, first_.lineno, "log call before `%s`" % _u(first_)[:40]))
     # MERGEIF: `if a:` whose whole body is `if b: X` (no else on either) -> `if a and b: X`
     # SWAPINDEP: two adjacent `self.<f> = <constant / empty container>` stores of different fields exchanged
     def _simple_const(e):
